@@ -62,6 +62,9 @@ struct W {
   // the broker receives the first n bytes of the pending write; ec is what the client's write_some is told
   void finish_write(vk::sock_rec* s, size_t n, error_code ec) {
     if (n > s->wdata.size()) n = s->wdata.size();
+#ifdef VK_DEBUG_IO
+    fprintf(stderr, "W[%d] sock%d %zu/%zu ec=%d:", epoch, s->id, n, s->wdata.size(), ec.value()); for (size_t i = 0; i < s->wdata.size(); i++) fprintf(stderr, " %02x", (uint8_t)s->wdata[i]); fprintf(stderr, "\n");
+#endif
     if (!s->delivered_early) { for (size_t i = 0; i < n && rx_n < RXCAP; i++) rx[rx_n++] = (uint8_t)s->wdata[i]; }
     vk_assert(rx_n < RXCAP, "harness: rx capacity");
     writes_completed++;
@@ -98,6 +101,9 @@ struct W {
   size_t feed(size_t n) {
     vk::sock_rec* s = vk::pending_read(); if (!s || out_avail() == 0) return 0;
     if (n > out_avail()) n = out_avail();
+#ifdef VK_DEBUG_IO
+    fprintf(stderr, "R[%d] sock%d shut=%d:", epoch, s->id, (int)s->shut); for (size_t i = 0; i < n; i++) fprintf(stderr, " %02x", out[out_pos + i]); fprintf(stderr, "\n");
+#endif
     size_t k = vk::complete_read(s, reinterpret_cast<const char*>(out + out_pos), n, {});
     out_pos += k; return k;
   }
